@@ -15,9 +15,9 @@ T = {
 }
 
 T["C20"] = dict(
-    text="TLC exhaustively model-checks spec/Settings.tla (settings singleton + stack of context frames; Enter/ExitOne/Raise-to-level/Assign) to nesting depth 4 and 7-8 actions: action properties ExitRestores (every key named by a frame that is left has that frame's entry value, others untouched, on normal and exceptional exits) and EnterVisible; canary RestoreAll must fail. Every behaviour of a smaller instance is replayed with real nested `with fl.settings.context(...)` blocks, real exceptions caught at the chosen level and direct assignments, mapped onto all 42 ordered pairs of the 7 real settings (thorough: simulated behaviours over all 7), comparing vars(settings) and the helpers reading them after every step; recorded enter/exit events are validated by spec/Trace_Settings.tla. Context objects may also be created first and entered by a later step (Create / EnterCreated), after an assignment or inside another context.",
+    text="TLC exhaustively model-checks spec/Settings.tla (settings singleton + stack of context frames; Enter/ExitOne/Raise-to-level/Assign) to nesting depth 4 and 7-8 actions: action properties ExitRestores (every key named by a frame that is left has that frame's entry value, others untouched, on normal and exceptional exits) and EnterVisible; canary RestoreAll must fail. Every behaviour of a smaller instance is replayed with real nested `with fl.settings.context(...)` blocks, real exceptions caught at the chosen level and direct assignments, mapped onto all 42 ordered pairs of the 7 real settings (thorough: simulated behaviours over all 7), comparing vars(settings) and the helpers reading them after every step; recorded enter/exit events are validated by spec/Trace_Settings.tla. Context objects may also be created first and entered by a later step (Create / EnterCreated), after an assignment or inside another context. For histories of every length, Apalache checks on spec/Apa_Settings.tla that one step from ANY well-typed state (any stack of up to 5 frames with arbitrary snapshots, 3 keys, 3 values) satisfies both action properties; the RestoreAll canary must fail there too.",
     note="Bounded: depth 4, 4-5 actions replayed, 2 model keys (independence argument) plus simulation over 7. Trusted: TLC, CPython's with-statement semantics, the harness.",
-    technique="TLA+ state machine + TLC exhaustive model checking; spec->code behaviour replay; code->spec trace validation",
+    technique="TLA+ state machine + TLC exhaustive model checking (+ Apalache step invariant from arbitrary states); spec->code behaviour replay; code->spec trace validation",
     ref="6. C20")
 
 T["C03"] = dict(
